@@ -278,7 +278,11 @@ func (c *Ctx) WantSample() bool {
 func (c *Ctx) SetRule(rule string) { c.mu.Lock(); c.res.Rule = rule; c.mu.Unlock() }
 
 // Assume records an assumption / trusted-base item.
-func (c *Ctx) Assume(s string) { c.mu.Lock(); c.res.Assumptions = append(c.res.Assumptions, s); c.mu.Unlock() }
+func (c *Ctx) Assume(s string) {
+	c.mu.Lock()
+	c.res.Assumptions = append(c.res.Assumptions, s)
+	c.mu.Unlock()
+}
 
 // ExhaustiveDomain records a sub-domain that was enumerated completely.
 func (c *Ctx) ExhaustiveDomain(s string) {
